@@ -120,6 +120,34 @@ class Runner:
         except Exception as ex:
             return {"h": "broken:" + type(ex).__name__, "items": []}
 
+    def impl_view(self):
+        """Layer B only (DRIFT): the shelf object inside a DBMDict, found by shape (an attribute value that has both a
+        `cache` mapping and a `dict` mapping), and the key names in its cache and in its dbm object.  "unknown" when the
+        object is not built that way."""
+        unknown = {"h": "unknown", "cache": [], "dbm": []}
+        if self.kind != "dbm":
+            return unknown
+        if self.pd is None:
+            return {"h": "known", "cache": [], "dbm": []}
+        try:
+            sh = None
+            for v in list(vars(self.pd).values()):
+                if hasattr(v, "cache") and hasattr(v, "dict") and isinstance(getattr(v, "cache"), dict):
+                    sh = v
+                    break
+            if sh is None:
+                closed = [v for v in vars(self.pd).values() if type(v).__name__ == "_ClosedDict"]
+                return {"h": "known", "cache": [], "dbm": []} if closed else unknown
+            ck = sorted(self.kn(k) for k in sh.cache)
+            dk = sorted(self.kn(k) for k in list(sh.dict.keys()))
+            if 99 in ck or 99 in dk:
+                return unknown
+            return {"h": "known", "cache": ck, "dbm": dk}
+        except CaseTimeout:
+            raise
+        except Exception:
+            return unknown
+
     def ctor(self, f):
         if self.kind == "dbm" and self.objects:
             # harness rule (DESIGN 5/C20): a DBM path is never opened twice; the generator never asks for it
@@ -265,7 +293,10 @@ def run_case(case):
                 if sparse and i + 1 < len(hist) and rnd.random() < 0.7:
                     rec["after"] = {"h": "unknown", "items": []}
                 else:
+                    rec["impl"] = rn.impl_view()          # before the observation below reads (and so caches) every key
                     rec["after"] = rn.observe()
+                    rec["impl2"] = rn.impl_view()
+                rec.setdefault("impl", rn.impl_view())
                 ev.append(rec)
                 rec = None
                 if ev[-1]["out"] == "NoObject":
@@ -277,6 +308,7 @@ def run_case(case):
                 rec = {"op": op, "k": a if isinstance(a, int) else 0, "v": b, "df": b, "m": [], "res": 0}
             rec["out"] = "NoReturn"
             rec["after"] = {"h": "unknown", "items": []}
+            rec["impl"] = {"h": "unknown", "cache": [], "dbm": []}
             ev.append(rec)
     finally:
         try:
@@ -397,6 +429,32 @@ MODEL_CLAUSES = ["INVARIANT TypeOK", "INVARIANT ClosedRaises", "INVARIANT Total"
                  "PROPERTY RefusedNoEffect"]
 OPS = ["set", "get", "del", "in", "len", "iter", "getd", "clear", "sync", "close", "create", "fromdict", "open"]
 MUST_FIRE = ["G_%s_%s" % (o, x) for o in OPS for x in ("ok", "ref")] + ["G_mutsrc", "G_occupy"]
+
+
+B_CAP = 1500          # Layer B traces per chunk (quick; thorough: 20000)
+SHELF_MUST_FIRE = ("Set", "Get", "GetDefault", "Del", "In", "LenOp", "Iter", "ReadAll", "Clear", "Sync", "Close", "Create", "FromDict",
+                   "OpenMissing", "MutSrc", "Occupy")
+SHELF_TWINS = ("delKeepsCache", "setSkipsDbm", "clearCacheOnly")
+
+
+def model_check_shelf():
+    """Layer B of DBMDict (ShelfImpl.tla): the code refines PDict and keeps its cache coherent; three faulty twins do not."""
+    def cfg(variant, props):
+        return MC_CONSTS_SMALL + 'Variant = "%s"\nSPECIFICATION BSpec\nCHECK_DEADLOCK FALSE\n%s' % (variant, props)
+    r = run_tlc("ShelfImpl", cfg("code", "INVARIANT TypeOKB\nINVARIANT CacheCoherent\nINVARIANT NoCacheUnlessOpen\nPROPERTY Refines\n"),
+                coverage=True, name="shelf-code", heap="2g")
+    missing = [a for a in SHELF_MUST_FIRE if (r.coverage or {}).get(a, 0) == 0]
+    if missing:
+        raise MachineryError("ShelfImpl: actions never taken: %s" % ", ".join(missing))
+    twins = {}
+    for v in SHELF_TWINS:
+        t = run_tlc("ShelfImpl", cfg(v, "PROPERTY Refines\n"), allow_violation=True, name="shelf-" + v, heap="2g")
+        if t.violated != "Refines":
+            raise MachineryError("ShelfImpl twin %s is not rejected by Refines (vacuous refinement check)" % v)
+        twins[v] = "violates Refines"
+    return {"module": "spec/store/ShelfImpl.tla", "states": r.distinct, "transitions": r.generated,
+            "invariants": ["TypeOKB", "CacheCoherent", "NoCacheUnlessOpen", "Refines (every call is a PDict step, d <- dbm object, onDisk <- committed)"],
+            "actions": {a: r.coverage.get(a, 0) for a in SHELF_MUST_FIRE}, "faulty_twins": twins}
 
 
 def model_check():
@@ -568,6 +626,9 @@ class Tally:
         self.t_exec = 0.0
         self.retried = 0
         self.t_val = 0.0
+        self.b_traces = 0           # DBMDict traces validated against ShelfImpl (Layer B)
+        self.b_known = 0            # ... in which the shelf object was found
+        self.b_drift = {}           # clause -> [tids]
 
 
 def process(cases, tally, want_samples=()):
@@ -600,6 +661,33 @@ def process(cases, tally, want_samples=()):
                                     timeout=3000)
     tally.t_val += time.time() - t1
     tally.tv_states += agg["distinct"]
+    # Layer B (DRIFT only): accepted DBMDict traces against ShelfImpl - the write-back cache and the dbm object call by call
+    bt = [t for c, t in zip(cases, traces) if c["kind"] == "dbm" and verdicts[t["tid"]]["ok"]
+          and all(e["out"] not in ("NoReturn", "NoObject") and "impl" in e for e in t["ev"])]
+    if len(bt) > B_CAP:
+        bt = random.Random(seed() + 77).sample(bt, B_CAP)
+    def with_reads(t):
+        # the observation the harness makes after a call (iterate + index every key) is itself a use of the dictionary that
+        # fills the write-back cache: it becomes a `readall` event of its own in the Layer B trace
+        ev = []
+        for e in t["ev"]:
+            ev.append(e)
+            if e["after"]["h"] == "open" and "impl2" in e:
+                ev.append({"op": "readall", "out": "ok", "impl": e["impl2"]})
+        return {"tid": t["tid"], "ev": ev}
+    bt = [with_reads(t) for t in bt]
+    if bt:
+        t1 = time.time()
+        bver, _ = validate_traces("Trace_ShelfImpl", bt, consts=CONSTS + 'Variant = "code"\n',
+                                  shards=tv_shards() if len(bt) > 800 else None, timeout=3000)
+        tally.t_val += time.time() - t1
+        for t in bt:
+            tally.b_traces += 1
+            if any(e["impl"]["h"] == "known" for e in t["ev"]):
+                tally.b_known += 1
+            bv = bver[t["tid"]]
+            if not bv["ok"]:
+                tally.b_drift.setdefault(bv["clause"], []).append(t["tid"])
     for c, t in zip(cases, traces):
         ev = t["ev"]
         v = verdicts[t["tid"]]
@@ -643,8 +731,11 @@ def main(argv_tier=None, replay_path=None):
         return 0 if verdicts["replay"]["ok"] else 1
 
     quick = tr == "quick"
+    global B_CAP
+    B_CAP = 1500 if quick else 20000
     # 1. the model
     g, acts = model_check()
+    shelf = model_check_shelf()
 
     # 2.-4. cases out of TLC, executed on the real classes, judged by TLC - in chunks
     D = D_QUICK if quick else D_THOROUGH
@@ -719,8 +810,16 @@ def main(argv_tier=None, replay_path=None):
             h = decode_hist(v[0]["trace"]["hist"])
             print("  %-45s %8d   shortest: %s" % (k, tally.rej_count[k], hist_str(h[:v[0]["verdict"]["step"]])))
 
+    for key, tids in sorted(tally.b_drift.items()):
+        print("DRIFT property=%s DBMDict is not the shelf of ShelfImpl.tla any more (%s) in %d trace(s), e.g. %s"
+              % (PROP, key, len(tids), tids[0]))
+    shelf.update({"traces_validated": tally.b_traces, "traces_with_shelf_found": tally.b_known,
+                  "drift": {k: len(v) for k, v in tally.b_drift.items()},
+                  "what": "accepted DBMDict traces replayed on ShelfImpl (Trace_ShelfImpl): same outcome and result per call, same "
+                          "key sets in the write-back cache and in the dbm object after every call (found by shape; DRIFT only)"})
     from common import tlaps_prove
     cov = {
+        "layerB_shelf": shelf,
         "tlaps_proof": tlaps_prove("PDict_proofs"),
         "states": g.distinct, "transitions": g.generated,
         "model_actions": acts,
